@@ -34,6 +34,8 @@ type Engine struct {
 	mainSolver    string
 	skipInitPkgs  map[string]bool
 	verbose       bool
+	pin           map[string]uint64
+	pinCtl        []int
 }
 
 func (e *Engine) skipInit(path string) bool {
@@ -137,6 +139,10 @@ func (e *Engine) newPath(prefix []int) *Path {
 		redirectVals: map[string]value{},
 		concLimit:    64,
 		maxPreempt:   0,
+	}
+	if e.pin != nil {
+		p.pin = e.pin
+		p.pinCtl = e.pinCtl
 	}
 	p.pr = NewPrinter(p.tt)
 	p.clock = p.tt.Const(64, 1000000000)
@@ -347,6 +353,7 @@ func main() {
 	verbose := flag.Bool("v", false, "verbose")
 	prefixS := flag.String("prefix", "", "run a single path with this decision prefix (comma separated)")
 	paramS := flag.String("params", "", "name=int,... harness parameters")
+	pinFile := flag.String("pin", "", "concrete replay: JSON {model, picks}; inputs pinned, control decisions followed")
 	flag.Parse()
 
 	e := &Engine{params: map[string]int{}, portfolio: []string{"cvc5-int", "z3-new", "cvc5"}, assertTimeout: time.Duration(*assertS) * time.Second,
@@ -386,7 +393,7 @@ func main() {
 		fmt.Fprintln(os.Stderr, "harness package not found:", *pkg)
 		os.Exit(2)
 	}
-	e.harness = hp.Func(*fn)
+	e.harness = hp.Func(strings.SplitN(strings.SplitN(*fn, ";", 2)[0], ":", 2)[0])
 	if e.harness == nil {
 		fmt.Fprintln(os.Stderr, "harness function not found:", *fn)
 		os.Exit(2)
@@ -394,7 +401,24 @@ func main() {
 	loadS := time.Since(t0).Seconds()
 
 	var sum *RunSummary
-	if *prefixS != "" || os.Getenv("GOSYM_SINGLE") != "" {
+	if *pinFile != "" {
+		var rp struct {
+			Model map[string]uint64 `json:"model"`
+			Picks []int             `json:"picks"`
+		}
+		b, err := os.ReadFile(*pinFile)
+		if err != nil {
+			fmt.Fprintln(os.Stderr, err)
+			os.Exit(2)
+		}
+		json.Unmarshal(b, &rp)
+		if rp.Model == nil {
+			rp.Model = map[string]uint64{}
+		}
+		e.pin = rp.Model
+		e.pinCtl = rp.Picks
+	}
+	if *pinFile != "" || *prefixS != "" || os.Getenv("GOSYM_SINGLE") != "" {
 		var prefix []int
 		for _, s := range strings.Split(*prefixS, ",") {
 			if s == "" {
@@ -415,20 +439,48 @@ func main() {
 		fmt.Println(string(b))
 		return
 	}
-	sum = e.explore()
-	sum.Harness = *pkg + "." + *fn
-	sum.Tier = *tier
-	sum.LoadS = loadS
-	b, _ := json.MarshalIndent(sum, "", " ")
+	// -func may list several runs: "FuncA:n=3,rd=2;FuncB"
+	var sums []*RunSummary
+	bad := false
+	for _, run := range strings.Split(*fn, ";") {
+		parts := strings.SplitN(run, ":", 2)
+		e.harness = hp.Func(parts[0])
+		if e.harness == nil {
+			fmt.Fprintln(os.Stderr, "harness function not found:", parts[0])
+			os.Exit(2)
+		}
+		e.params = map[string]int{}
+		if len(parts) > 1 {
+			for _, kv := range strings.Split(parts[1], ",") {
+				if kv == "" {
+					continue
+				}
+				ps := strings.SplitN(kv, "=", 2)
+				var v int
+				fmt.Sscanf(ps[1], "%d", &v)
+				e.params[ps[0]] = v
+			}
+		}
+		gStats = &SolverStats{}
+		sum = e.explore()
+		sum.Harness = *pkg + "." + parts[0]
+		sum.Tier = *tier
+		sum.LoadS = loadS
+		sums = append(sums, sum)
+		fmt.Fprintf(os.Stderr, "%s %v: paths=%d ok=%d infeasible=%d budget=%d unsupported=%d violations=%d asserts=%d/%d unknown=%d wall=%.1fs (load %.1fs)\n",
+			sum.Harness, e.params, sum.Paths, sum.PathsOK, sum.Infeasible, sum.Budget, len(sum.Unsupported), len(sum.Violations), sum.AssertsOK, sum.Asserts, len(sum.AssertUnknown), sum.WallS, loadS)
+		if len(sum.Unsupported) > 0 {
+			fmt.Fprintln(os.Stderr, "UNSUPPORTED:", sum.Unsupported[0])
+			bad = true
+		}
+	}
+	b, _ := json.MarshalIndent(sums, "", " ")
 	if *out != "" {
 		os.WriteFile(*out, b, 0644)
 	} else {
 		fmt.Println(string(b))
 	}
-	fmt.Fprintf(os.Stderr, "%s: paths=%d ok=%d infeasible=%d budget=%d unsupported=%d violations=%d asserts=%d/%d unknown=%d wall=%.1fs (load %.1fs)\n",
-		sum.Harness, sum.Paths, sum.PathsOK, sum.Infeasible, sum.Budget, len(sum.Unsupported), len(sum.Violations), sum.AssertsOK, sum.Asserts, len(sum.AssertUnknown), sum.WallS, loadS)
-	if len(sum.Unsupported) > 0 {
-		fmt.Fprintln(os.Stderr, "UNSUPPORTED:", sum.Unsupported[0])
+	if bad {
 		os.Exit(2)
 	}
 }
